@@ -4,7 +4,7 @@ import subprocess
 
 from . import common as C
 
-RUNNERS = ["fmtsim", "parsesim"]
+RUNNERS = ["fmtsim", "parsesim", "gensim"]
 
 
 def build_envshim():
